@@ -60,12 +60,30 @@ def names_unresolved(node) -> bool:
     return bool(bad)
 
 
+def analyzed_index(node) -> bool:
+    """an `x[i]` that mypy has re-read as a type application (x is a function or class): its str()
+    rendering, which the fallback comparison uses, no longer contains the index expression"""
+    import mypy.nodes as N
+    from refurb.visitor import TraverserVisitor
+    hit = []
+
+    class V(TraverserVisitor):
+        def visit_index_expr(self, o):
+            if o.analyzed is not None:
+                hit.append(o)
+            super().visit_index_expr(o)
+    V().accept(node)
+    return bool(hit)
+
+
 def classify(real: bool, sa: str, sb: str, a, b, label: str) -> str:
     if real:   # reported same although the syntax differs
         if names_unresolved(a) or names_unresolved(b):
             return "unsound:unresolved-names"
         if "o2" in sa or "o2" in sb:
             return "unsound:import-alias"
+        if analyzed_index(a) or analyzed_index(b):
+            return "unsound:str-fallback-type-application"
         if any(ord(ch) > 0xFFFF or ch == "\\" for ch in sa + sb):
             return "unsound:str-literal-rendering"
         return f"unsound:{label}"
@@ -160,6 +178,9 @@ def run(ctx: Ctx) -> None:
     extra = {("unreach.py", "P_9000"): ("unreachable", "und1", "und2"), ("unreach.py", "P_9001"): ("unreachable", "und1.x", "und2.x"),
              ("unreach.py", "P_9002"): ("unreachable-same", "und1", "und1")}
     found, errs, td = TC.harvest(files)
+    if getattr(TC.harvest, "skipped", None):
+        ctx.count("statements-mypy-itself-crashed-on", len(TC.harvest.skipped))
+        ctx.notes.append("generated statements removed because mypy hit its own INTERNAL ERROR on them: " + " | ".join(x.strip()[:160] for x in TC.harvest.skipped[:3]))
     try:
         if errs:
             ctx.obligation("probe corpus builds under mypy", False, errs[0][:300])
@@ -237,6 +258,11 @@ def e2e(ctx: Ctx, sel, real_by_key) -> None:
     for key, (label, sa, sb, layout) in sel:
         if "*" in sa[:1] or "*" in sb[:1] or "\n" in sa + sb or layout != "one":
             continue
+        if ":=" in sa + sb:
+            # a walrus target is rendered `v*` where mypy sees its definition and `v` elsewhere: which operand
+            # holds the definition depends on evaluation order, which differs between the probe tuple and the conditional
+            ctx.count("e2e-skipped-walrus")
+            continue
         lines.append(f"    _ = ({sa}) if ({sb}) else c")
         expect[len(lines) + G.PRELUDE.count("\n") - 1] = (key, sa, sb)
     with tempfile.TemporaryDirectory(prefix="c06e2e-") as td:
@@ -248,7 +274,10 @@ def e2e(ctx: Ctx, sel, real_by_key) -> None:
         if strs:
             ctx.obligation("FURB110 end-to-end corpus builds", False, strs[0][:200])
             return
-        flagged = {e.line for e in out}
+        # only the OUTER conditional of each statement counts: it starts at the opening parenthesis, the
+        # leftmost column any diagnostic of this file can have (operands may contain `x if x else y` themselves)
+        outer_col = min((e.column for e in out), default=0)
+        flagged = {e.line for e in out if e.column == outer_col}
         src_lines = text.split("\n")
         bad = []
         for ln, (key, sa, sb) in expect.items():
